@@ -127,6 +127,28 @@ def run(ctx, proofs_ok):
         pass
     if ctx.violations:
         return
+    # GEOADD has no model of its replies; its effect on watchers is checked on the implementation alone:
+    # the watched key's record changes in the window => EXEC replies null
+    import vlib
+    c = lambda conn, *a: f"resp {conn} " + " ".join(hx(x) for x in a)
+    geo, cases = ["open a mem", "conn c1", "conn c2"], []
+    for i, (setup, w) in enumerate([((), ("GEOADD", "K", "13.361389", "38.115556", "Palermo")), ((("GEOADD", "K", "1", "1", "m"),), ("GEOADD", "K", "2", "2", "m")),
+                                    ((("ZADD", "K", "1", "m"),), ("GEOADD", "K", "15.087269", "37.502669", "Catania")), ((("GEOADD", "K", "1", "1", "m"),), ("GEOADD", "K", "3", "3", "n", "4", "4", "o"))]):
+        K = f"gw{i}"
+        sub = lambda args: tuple(K if a == "K" else a for a in args)
+        geo += [c("c2", *sub(st)) for st in setup] + [c("c1", "WATCH", K), "dump", c("c2", *sub(w)), "dump", c("c1", "MULTI"), c("c1", "SET", f"gm{i}", "1"), c("c1", "EXEC"), c("c1", "EXISTS", f"gm{i}")]
+        cases.append((len(geo) - 7, K, " ".join(sub(w))))
+    g, _ = vlib.run_pair(ctx, geo, vlib.build_harness(ctx), "geo")
+    ctx.cov["evaluations"] += len(geo)
+    for (i, K, text) in cases:
+        if i + 6 < len(g):
+            kh = K.encode().hex()
+            ent = lambda d: [e for e in d.split(" ")[1:] if e.startswith(kh + "@")]
+            if ent(g[i]) != ent(g[i + 2]) and (g[i + 5] != "$N" or g[i + 6] != ":0"):
+                vlib.record_violation(ctx, "watch-unsound", {"ops": geo[:i + 7], "impl": g[:i + 7], "model": [], "watched": K, "command": text,
+                                                              "explain": "the watched key's record was changed by GEOADD between WATCH and EXEC but the EXEC ran"})
+                return
+            ctx.cov["geo_watch_windows_checked_on_impl"] = ctx.cov.get("geo_watch_windows_checked_on_impl", 0) + 1
     # real concurrency: the optimistic WATCH / GET / MULTI / SET / EXEC loop never loses an update
     from checks import conc
     q = ctx.tier == "quick"
